@@ -197,7 +197,7 @@ CHECKS = {
             "store of any scalar element of the referent - through the reference, the original handle or another reference - is "
             "read by all of them as exactly that element replaced, and the reference still denotes the same object). "
             "History level (proof model Xo/Model/RefGraph.lean, executed against the library as component rg): C08_ref_history - for "
-            "every universe of node classes (static structs of 8-byte scalars, Ref and UnionRef fields), every initial capacity, "
+            "every universe of node classes (static structs of 8-byte scalars, Ref and UnionRef fields and static arrays of them), every initial capacity, "
             "power-of-two alignment and grow step, and EVERY finite history of construct / bind-to-existing / bind-to-value (= "
             "foreign object) / bind-to-null / write-through-original / write-through-ref / copy / other allocations / growth whose "
             "capacity stays below 2^62, the invariant holds: allocator invariant with the nodes as live regions, and every reference "
